@@ -165,6 +165,10 @@ func contractEffects(fn *ssa.Function, fc *FuncContract, pkg *PkgInfo) ModSet {
 			ms.prefixes["Map."] = true
 			continue
 		}
+		if me.Kind == "call" && me.Name == "all" && len(me.Args) == 1 {
+			ms.prefixes[me.Args[0].String()] = true
+			continue
+		}
 		if me.Kind == "call" && me.Name == "stream" {
 			ms.prefixes["Io.out"] = true
 			ms.prefixes["Io.outlen"] = true
@@ -734,6 +738,17 @@ func (x *Exec) havocModifies(env *CEnv, st *State, pre *State, me *CE) {
 		// "modifies maps": the contents of every Go map may change (maps are not first-class designators)
 		for _, k := range sortedKeys(st.H) {
 			if strings.HasPrefix(k, "Map.") {
+				st.H[k] = x.vc.fresh("mod."+k, st.H[k].S)
+			}
+		}
+		return
+	}
+	if me.Kind == "call" && me.Name == "all" && len(me.Args) == 1 {
+		// "modifies all(pkg.T.f)": field f of EVERY object of type T may change (caches filled lazily
+		// behind a whole collection of objects, e.g. the hash caches of a block's transactions)
+		pre := me.Args[0].String()
+		for _, k := range sortedKeys(st.H) {
+			if k == pre || strings.HasPrefix(k, pre+".") {
 				st.H[k] = x.vc.fresh("mod."+k, st.H[k].S)
 			}
 		}
